@@ -17,6 +17,7 @@ import (
 	"github.com/pokt-network/posmint/crypto"
 	sdk "github.com/pokt-network/posmint/types"
 	authTypes "github.com/pokt-network/posmint/x/auth/types"
+	govTypes "github.com/pokt-network/posmint/x/gov/types"
 	posTypes "github.com/pokt-network/posmint/x/pos/types"
 
 	"verif/harness/internal/chain"
@@ -156,4 +157,47 @@ func execAstdtx(w []string) string {
 	}
 	tx := authTypes.StdTx{Msg: msg, Fee: fee, Signature: authTypes.StdSignature{PublicKey: pk, Signature: unhx(w[4])}, Memo: string(unhx(w[5])), Entropy: ent}
 	return "ok " + hx(cdc.MustMarshalBinaryBare(tx))
+}
+
+// amsg2: the two message types that are not flat - MsgStake (a registered key and an Int) and MsgUpgrade (an address and
+// a nested plan of an int64 height and a version) - against `prefix ‖ encodeStruct`.
+func genAmsg2(r *rand.Rand) string {
+	if r.Intn(2) == 0 {
+		k := chain.Keys[r.Intn(chain.NAll)]
+		raw := k.Pub.RawBytes()
+		enc := cdc.MustMarshalBinaryBare(k.Pub)
+		if len(enc) != 4+1+len(raw) || !strings.HasSuffix(string(enc), string(raw)) {
+			k = chain.Keys[0]
+			raw = k.Pub.RawBytes()
+			enc = cdc.MustMarshalBinaryBare(k.Pub)
+		}
+		pre := cdc.MustMarshalBinaryBare(posTypes.MsgStake{PubKey: k.Pub, Value: sdk.NewInt(1)})[:4]
+		return fmt.Sprintf("amsg2 stake %s k:%s:%s i:%s", hx(pre), hx(enc[:4]), hx(raw), genBig(r))
+	}
+	pre := cdc.MustMarshalBinaryBare(govTypes.MsgUpgrade{Address: []byte{1}})[:4]
+	ver := []string{"", "1.0", "0.0.1-rc", "2"}[r.Intn(4)]
+	return fmt.Sprintf("amsg2 upgrade %s b:%s p:%d:%s", hx(pre), hx(genAddr(r)), rndHeight(r)-int64(r.Intn(2))*int64(r.Intn(1000)), hx([]byte(ver)))
+}
+
+func execAmsg2(w []string) string {
+	part := func(i int) []string { return strings.Split(w[i], ":") }
+	switch w[1] {
+	case "stake":
+		raw := unhx(part(3)[2])
+		var pk crypto.PublicKey
+		for i := 0; i < chain.NAll; i++ {
+			if string(chain.Keys[i].Pub.RawBytes()) == string(raw) {
+				pk = chain.Keys[i].Pub
+			}
+		}
+		if pk == nil {
+			return "bad-op"
+		}
+		a, _ := new(big.Int).SetString(part(4)[1], 10)
+		return "ok " + hx(cdc.MustMarshalBinaryBare(posTypes.MsgStake{PubKey: pk, Value: sdk.NewIntFromBigInt(a)}))
+	case "upgrade":
+		h, _ := strconv.ParseInt(part(4)[1], 10, 64)
+		return "ok " + hx(cdc.MustMarshalBinaryBare(govTypes.MsgUpgrade{Address: unhx(part(3)[1]), Upgrade: govTypes.Upgrade{Height: h, Version: string(unhx(part(4)[2]))}}))
+	}
+	return "bad-op"
 }
